@@ -23,14 +23,19 @@ package dns
 //@ func (*Conn).Read [C12]
 //@   requires co != nil
 //@   assert at "return co.Conn.Read(p)" datagram: callres("isPacketConn")
+//@   callsite "ReadFull" body: len(arg1) == length && ref(arg1) == ref(p) && sliceoff(arg1) == sliceoff(p)
+//@   assert at "return 0, io.ErrShortBuffer" short: length > len(p)
 //@   ensures n: ret1 == nil ==> 0 <= ret0 && ret0 <= len(p)
 //@ func (*Conn).ReadMsgHeader [C12]
 //@   requires co != nil && co.Conn != nil
 //@   assert at* ".Conn.Read(" datagram: callres("isPacketConn")
+//@   callsite "ReadFull" body: len(arg1) == length
+//@   assert at "return nil, ErrShortRead" short: n < 12
 //@   ensures hdr: ret1 == nil ==> len(ret0) >= 12
 //@ func (*Server).readTCP [C12]
 //@   requires srv != nil && conn != nil
 //@   assert at* "conn.Read(" fullreads: false
+//@   callsite "ReadFull" body: len(arg1) == length
 //@   exit whole: ret1 == nil ==> len(ret0) == length
 
 // a client exchange never hands back a reply with another ID as a success
